@@ -175,10 +175,11 @@ const (
 	tplFallbackWorld     // { @s @world }: a bounded source in front of an unbounded fallback
 	tplFallbackOverdraft // { @s  @s2 allowing unbounded overdraft }
 	tplFeeVars           // three account variables, the non-source one declared first (may alias the source)
+	tplMaxVars           // a capped variable source in front of a second variable source (they may be the same account); the cap is a literal of the shared text
 	numTpl
 )
 
-var tplNames = []string{"lit", "var", "meta", "ordered", "max", "odb", "odu", "all", "bal", "world", "split", "setacctmeta", "two", "raw", "orderedvars", "arith", "portionvar", "metavar", "assetvar", "savevar", "fbworld", "fboverdraft", "feevars"}
+var tplNames = []string{"lit", "var", "meta", "ordered", "max", "odb", "odu", "all", "bal", "world", "split", "setacctmeta", "two", "raw", "orderedvars", "arith", "portionvar", "metavar", "assetvar", "savevar", "fbworld", "fboverdraft", "feevars", "maxvars"}
 
 var assetNames = []string{"USD", "EUR/2"}
 
@@ -272,6 +273,9 @@ func scriptFor(op *Op) (plain string, vars map[string]string) {
 	case tplFeeVars:
 		sb.WriteString("vars {\n\taccount $fee\n\taccount $from\n\taccount $to\n\tmonetary $m\n}\nsend $m (\n\tsource = $from\n\tdestination = {\n\t\t10% to $fee\n\t\tremaining to $to\n\t}\n)\n")
 		vars["fee"], vars["from"], vars["to"], vars["m"] = s2, s, d, a+" "+amt
+	case tplMaxVars:
+		fmt.Fprintf(&sb, "vars {\n\taccount $s\n\taccount $s2\n\taccount $d\n\tmonetary $m\n}\nsend $m (\n\tsource = {\n\t\tmax [%s %s] from $s\n\t\t$s2\n\t}\n\tdestination = $d\n)\n", a, cp)
+		vars["s"], vars["s2"], vars["d"], vars["m"] = s, s2, d, a+" "+amt
 	case tplRaw:
 		sb.WriteString(op.Raw)
 	default:
